@@ -213,8 +213,11 @@ class MultiTerm(qcore.Query):
             return matching.NullMatcher()
 
         if len(qs) == 1:
-            # If there's only one term, just use it
-            m = qs[0].matcher(searcher, context)
+            # If there's only one term, just use it (with this query's boost)
+            q = qs[0]
+            if self.boost != 1.0:
+                q = q.with_boost(self.boost)
+            m = q.matcher(searcher, context)
         else:
             if constantscore:
                 # To tell the sub-query that score doesn't matter, set weighting
